@@ -22,14 +22,14 @@ static void setIdentities(QXmppDiscoveryIq *iq, const IdT ids[], unsigned nid)
     for (unsigned i = 0; i < NID; i++) if (i < nid) {
         QXmppDiscoveryIq::Identity id;
         id.setCategory(qstr(ids[i].f[0])); id.setType(qstr(ids[i].f[1])); id.setLanguage(qstr(ids[i].f[2])); id.setName(qstr(ids[i].f[3]));
-        il.append(id);
+        vp_c20_list_push(&il, new QXmppDiscoveryIq::Identity(id));
     }
     iq->setIdentities(il);
 }
 static void setFeatures(QXmppDiscoveryIq *iq, const Txt fs[], unsigned nf)
 {
     QStringList fl;
-    for (unsigned i = 0; i < NFEAT; i++) if (i < nf) fl.append(qstr(fs[i]));
+    for (unsigned i = 0; i < NFEAT; i++) if (i < nf) { QString q = qstr(fs[i]); vp_c20_strlist_push(&fl, &q); }
     iq->setFeatures(fl);
 }
 static void symIdentities(IdT ids[], unsigned nid)
@@ -59,9 +59,9 @@ extern "C" void h_probe()
 {
     Txt a = symTxt(), b = symTxt();
     QString qa = qstr(a), qb = qstr(b);
-    QStringList l; l.append(qa); l.append(qb);
+    QStringList l; vp_c20_strlist_push(&l, &qa); vp_c20_strlist_push(&l, &qb);
 #if C20_PROBE == 2
-    l.append(qstr(symTxt()));
+    { QString qc = qstr(symTxt()); vp_c20_strlist_push(&l, &qc); }
 #endif
 #if C20_PROBE == 1 || C20_PROBE == 3
     if (vp_bool()) l.swapItemsAt(0, 1);
@@ -75,5 +75,32 @@ extern "C" void h_probe()
     bool lt = l.at(0) < l.at(1);
     vp_assert(lt || !lt, "C20 probe");
 #endif
+}
+#endif
+#ifdef C20_PROBE
+static void mk3(QStringList &l) { QString a = qstr(symTxt()), b = qstr(symTxt()), c = qstr(symTxt()); vp_c20_strlist_push(&l, &a); vp_c20_strlist_push(&l, &b); vp_c20_strlist_push(&l, &c); }
+extern "C" void h_pA()   // one manual insertion step with iterators
+{
+    QStringList l; mk3(l);
+    auto last = l.begin() + 1; QString val = std::move(*last); auto next = last; --next;
+    if (val < *next) { *last = std::move(*next); last = next; }
+    *last = std::move(val);
+    vp_assert(l.at(0).size() <= 3, "C20 probe");
+}
+extern "C" void h_pB()   // the same with plain references, no iterator objects
+{
+    QStringList l; mk3(l);
+    QString &s0 = l[0], &s1 = l[1];
+    QString val = std::move(s1);
+    QString *last = &s1;
+    if (val < s0) { s1 = std::move(s0); last = &s0; }
+    *last = std::move(val);
+    vp_assert(l.at(0).size() <= 3, "C20 probe");
+}
+extern "C" void h_pC()   // libstdc++ helper directly, once
+{
+    QStringList l; mk3(l);
+    std::__unguarded_linear_insert(l.begin() + 1, __gnu_cxx::__ops::__val_less_iter());
+    vp_assert(l.at(0).size() <= 3, "C20 probe");
 }
 #endif
